@@ -1600,7 +1600,8 @@ func (is *indexSearch) updateTSIDsForPrefix(prefix []byte, tsids *uint64set.Set,
 	for ts.NextItem() {
 		item := ts.Item
 		if !bytes.HasPrefix(item, prefix) {
-			return nil
+			// past the measurement's items: the deleted ids still have to be removed below
+			break
 		}
 		tail := item[len(prefix):]
 		for i := 0; i < tagSeps; i++ {
